@@ -136,7 +136,8 @@ NearestEnd(t) == IF T(t).parent = 0 THEN -1
                  ELSE IF T(T(t).parent).pinEnd >= 0 THEN T(T(t).parent).pinEnd ELSE NearestEnd(T(t).parent)
 FSuccs(t) == {u \in Leafs : \E d \in AllDeps(u) : d.p \in ({t} \cup AncT(t)) /\ d.p \notin AncT(u) /\ ~d.onstart}
 Terminal(t) == FSuccs(t) = {} /\ \A d \in AllDeps(t) : ~d.onstart
-UbEnd(t) == IF T(t).leaf /\ ~Fwd(t) /\ T(t).pinEnd < 0 /\ Terminal(t) THEN NearestEnd(t) ELSE -1
+\* (an event the user dated -- a start of its own, no work -- stays where it is: the deadline of the package around it is not its end)
+UbEnd(t) == IF T(t).leaf /\ ~Fwd(t) /\ T(t).pinEnd < 0 /\ Terminal(t) /\ ~(T(t).effort = 0 /\ T(t).pin >= 0) THEN NearestEnd(t) ELSE -1
 OwnEnd(t) == IF T(t).pinEnd >= 0 THEN T(t).pinEnd ELSE UbEnd(t)
 \* a task that is its own (transitive) successor sits on a dependency loop: it can never be placed consistently,
 \* so an own end does not make it ready (C04 / C11: the tasks of a loop stay unscheduled, with a warning)
